@@ -50,6 +50,11 @@ def _panic_line(err):
 
 def judge_db(trace, outcome, what, timeout=900):
     nok, bad, r = judge.judge_trace("SimpleDBTrace.tla", "SimpleDBTrace.cfg", trace, outcome, what, timeout=timeout, heap="4g")
+    # notes (deviations from the selection policy of the pinned code) are counted, never reported
+    notes = [b for b in bad if str(b.get("clause", "")).startswith("note:")]
+    if notes:
+        outcome.extra["policy_notes"] = outcome.extra.get("policy_notes", 0) + len(notes)
+    bad = [b for b in bad if not str(b.get("clause", "")).startswith("note:")]
     return nok, bad, r
 
 
